@@ -38,7 +38,7 @@ def _run_one(args):
     t0 = time.time()
     out = dict(prop=prop, harness=name, targets=spec['targets'], finding=spec['finding'], expect=spec['expect'], obligations=[],
                status='ok', executed={}, paths=0, doc=spec['doc'])
-    timeout = int(os.environ.get("PVC_TIMEOUT_MS", 0)) or spec["timeout"] or (60000 if tier == "quick" else 300000)
+    timeout = int(os.environ.get("PVC_TIMEOUT_MS", 0)) or spec["timeout"] or (30000 if tier == "quick" else 240000)
     ctx = Context(prop, name, mode='refute' if sizes else 'proof', sizes=sizes or {})
     progs = []
 
@@ -96,7 +96,7 @@ def _run_one(args):
     if obls and not vac_checked:
         # satisfiability of the hypotheses of the last path (requires-vacuity guard)
         last = obls[-1]
-        r = smt.solve(list(last.hyps), timeout_ms=10000, want_model=False, fallback=False, tactics=False)
+        r = smt.solve([h for h in last.hyps if not z3.is_quantifier(h)], timeout_ms=3000, want_model=False, fallback=False, tactics=False)
         out['hyps_sat'] = r['status']
     out['time'] = time.time() - t0
     return out
